@@ -10,6 +10,9 @@ import (
 	_ "verif/h/duoc"
 
 	"github.com/biogo/biogo/align/pals"
+	"github.com/biogo/biogo/align/pals/dp"
+	"github.com/biogo/biogo/alphabet"
+	"github.com/biogo/biogo/seq/linear"
 	"verif/h/enum"
 )
 
@@ -297,8 +300,87 @@ func perms(n int) [][]int {
 	return out
 }
 
+// packedPairs: the pairs come from NewPair over a packed sequence (how cmd/pals makes them from hits),
+// every list of two hits over a few intervals with shared and distinct ends; the caller links the
+// features to their pair as cmd/pals does.  Every feature is an object of its pair, lies in exactly one
+// pile exactly once, and its mate's mate is itself.
+func packedPairs(c *enum.Ctx) {
+	letters := make(alphabet.Letters, 600)
+	for i := range letters {
+		letters[i] = alphabet.Letter("acgt"[(i*7+i/5)%4])
+	}
+	pk := pals.NewPacker("pk")
+	if _, err := pk.Pack(linear.NewSeq("contig", letters, alphabet.DNA)); err != nil {
+		c.Note("packedPairs: Pack failed: %v", err)
+		return
+	}
+	packed := pk.FinalisePack()
+	ivs := [][2]int{{0, 10}, {5, 15}, {100, 110}, {300, 320}, {305, 320}}
+	var hits []dp.Hit
+	for _, a := range ivs {
+		for _, b := range ivs {
+			if a != b {
+				hits = append(hits, dp.Hit{Abpos: a[0], Aepos: a[1], Bbpos: b[0], Bepos: b[1], Score: len(hits)})
+			}
+		}
+	}
+	n := 0
+	for i := range hits {
+		for j := range hits {
+			if i == j {
+				continue
+			}
+			k := map[string]interface{}{"family": "pairs made by NewPair from hits on a packed sequence", "hits": []dp.Hit{hits[i], hits[j]}}
+			c.Doing(0, k)
+			c.Eval()
+			n++
+			c.Guard("packed/panic", k, func() {
+				p := pals.NewPiler(0)
+				var pairs []*pals.Pair
+				for _, h := range []dp.Hit{hits[i], hits[j]} {
+					fp, err := pals.NewPair(packed, packed, h, false)
+					if err != nil {
+						c.Fail("packed/NewPair", k, "NewPair(%+v): %v", h, err)
+						return
+					}
+					fp.A.Pair, fp.B.Pair = fp, fp
+					if err := p.Add(fp); err == nil {
+						pairs = append(pairs, fp)
+					}
+				}
+				piles := p.Piles(nil)
+				count := map[*pals.Feature]int{}
+				for _, pl := range piles {
+					for _, im := range pl.Images {
+						count[im]++
+					}
+				}
+				for pi, fp := range pairs {
+					for _, f := range []*pals.Feature{fp.A, fp.B} {
+						if f.Pair != fp || f.Mate() == nil || f.Mate().Mate() != f {
+							c.Fail("packed/mate-link", k, "pair %d: feature %v is linked to pair %v, mate %v", pi, f, f.Pair, f.Mate())
+						}
+						if count[f] != 1 {
+							c.Fail("packed/feature-count", k, "pair %d: feature %v appears %d times in the piles", pi, f, count[f])
+						}
+						if pl, ok := f.Location().(*pals.Pile); !ok || pl.From > f.From || pl.To < f.To {
+							c.Fail("packed/image-location", k, "pair %d: feature %v lies on %v", pi, f, f.Location())
+						}
+					}
+				}
+				if len(count) != 2*len(pairs) {
+					c.Fail("packed/feature-count", k, "%d accepted pairs but %d distinct features in the piles", len(pairs), len(count))
+				}
+			})
+			c.Nontrivial(enum.J(k))
+		}
+	}
+	c.Set("hit_lists_through_NewPair", n)
+}
+
 func run(c *enum.Ctx) {
-	c.Rule("every multiset of <=3 feature pairs over the 15 intervals [s,e) 0<=s<e<=5 on one location (thorough: 0..6, 21 intervals) and every multiset of <=2 pairs over two locations, in every insertion order, every orientation of each pair, with the five pair filters (nil, all, none, by score, by the extent of the piles the images lie on), a pile of 2^k-1, 2^k, 2^k+1 images (7..257) joined to a neighbouring pile by one feature added last, first or in the middle, the same after sequences of earlier Piles calls with other filters (partial, partial+nil, nil+partial; thorough also partial+none, all+partial), a repeated Piles call and a re-insertion of each pair in either orientation; reference = union-find over 'same location and overlapping or abutting'; distinct = (multiset, order, flips, filter); non-trivial = multisets with at least two features on one location that overlap or abut")
+	packedPairs(c)
+	c.Rule("every multiset of <=3 feature pairs over the 15 intervals [s,e) 0<=s<e<=5 on one location (thorough: 0..6, 21 intervals) and every multiset of <=2 pairs over two locations, in every insertion order, every orientation of each pair, with the five pair filters (nil, all, none, by score, by the extent of the piles the images lie on), a pile of 2^k-1, 2^k, 2^k+1 images (7..257) joined to a neighbouring pile by one feature added last, first or in the middle, the same after sequences of earlier Piles calls with other filters (partial, partial+nil, nil+partial; thorough also partial+none, all+partial), a repeated Piles call and a re-insertion of each pair in either orientation; every list of two hits over five intervals (shared and distinct ends) turned into pairs by NewPair on a packed sequence; reference = union-find over 'same location and overlapping or abutting'; distinct = (multiset, order, flips, filter); non-trivial = multisets with at least two features on one location that overlap or abut")
 	maxE := 5
 	if !c.Quick {
 		maxE = 6
